@@ -18,13 +18,15 @@ var (
 	ErrEMFILE   = errors.New("simfs: too many open files")
 	ErrIsDir    = errors.New("simfs: is a directory")
 	ErrBackend  = errors.New("simfs: storage backend unavailable")
+	ErrWrapsEOF = fmt.Errorf("simfs: stream reset by peer: %w", io.EOF)
 )
 
 type Fault struct {
 	File string `json:"file"`
-	Kind string `json:"kind"`          // readerr | notexist | perm | emfile | dir
-	At   int    `json:"at,omitempty"`  // readerr: octets delivered before the error
-	Nth  int    `json:"nth,omitempty"` // apply to the n-th open of the file (0 = every open)
+	Kind string `json:"kind"`           // readerr | notexist | perm | emfile | dir
+	At   int    `json:"at,omitempty"`   // readerr: octets delivered before the error
+	Nth  int    `json:"nth,omitempty"`  // apply to the n-th open of the file (0 = every open)
+	Wrap bool   `json:"wrap,omitempty"` // readerr: the error wraps io.EOF ("connection reset: EOF"): a broken stream, not the end of the text
 	Once bool   `json:"once,omitempty"` // readerr: the read fails once (a transient error), the next one carries on with the rest of the file
 }
 
@@ -58,7 +60,7 @@ func (f *FS) Open(name string) (fs.File, error) {
 		f.OpenedLog = append(f.OpenedLog, name)
 	}
 	nth := f.OpenCount[name]
-	readErrAt, eof, once := -1, false, false
+	readErrAt, eof, once, wrap := -1, false, false, false
 	for _, ft := range f.Faults {
 		if ft.File != name || (ft.Nth != 0 && ft.Nth != nth) {
 			continue
@@ -93,7 +95,7 @@ func (f *FS) Open(name string) (fs.File, error) {
 			}
 			return &file{fs: f, name: name, dir: true}, nil
 		case "readerr":
-			readErrAt, once = ft.At, ft.Once
+			readErrAt, once, wrap = ft.At, ft.Once, ft.Wrap
 		case "eofat":
 			readErrAt, eof = ft.At, true
 		}
@@ -108,7 +110,7 @@ func (f *FS) Open(name string) (fs.File, error) {
 	if f.Nest > f.MaxNest {
 		f.MaxNest = f.Nest
 	}
-	return &file{fs: f, name: name, data: data, errAt: readErrAt, eofOnly: eof, once: once}, nil
+	return &file{fs: f, name: name, data: data, errAt: readErrAt, eofOnly: eof, once: once, wrap: wrap}, nil
 }
 
 type file struct {
@@ -122,6 +124,7 @@ type file struct {
 	failed  bool
 	eofOnly bool // end the file at errAt without an error (reference runs)
 	once    bool // the read error is transient: returned once, then the file carries on
+	wrap    bool // the read error wraps io.EOF
 }
 
 func (x *file) Stat() (fs.FileInfo, error) { return info{x.name, int64(len(x.data)), x.dir}, nil }
@@ -148,6 +151,10 @@ func (x *file) Read(p []byte) (int, error) {
 		if x.errAt >= 0 && x.errAt <= len(x.data) && !x.eofOnly && !(x.once && x.failed) {
 			x.failed = true
 			f.Fired["read_error"]++
+			if x.wrap {
+				f.Fired["read_error_wrapping_eof"]++
+				return 0, ErrWrapsEOF
+			}
 			return 0, ErrInjected
 		}
 		return 0, io.EOF
@@ -200,16 +207,16 @@ func (i info) Sys() any           { return nil }
 type Reader struct{ f *file }
 
 func (f *FS) Reader(name string, data []byte) *Reader {
-	errAt, eof, once := -1, false, false
+	errAt, eof, once, wrap := -1, false, false, false
 	for _, ft := range f.Faults {
 		if ft.File == name && ft.Kind == "readerr" {
-			errAt, once = ft.At, ft.Once
+			errAt, once, wrap = ft.At, ft.Once, ft.Wrap
 		}
 		if ft.File == name && ft.Kind == "eofat" {
 			errAt, eof = ft.At, true
 		}
 	}
-	return &Reader{&file{fs: f, name: name, data: data, errAt: errAt, eofOnly: eof, once: once}}
+	return &Reader{&file{fs: f, name: name, data: data, errAt: errAt, eofOnly: eof, once: once, wrap: wrap}}
 }
 
 func (r *Reader) Read(p []byte) (int, error) { return r.f.Read(p) }
